@@ -411,3 +411,150 @@ def translate_perform_acl(path):
   body = t.stmts(fn.body, final)
   return ('Definition gen_perform_acl (P : acl_prims) (col_renames_dict : renames) (resources : list resource)\n'
           '  (rules : list rule) : list (resource * upd) * list (rule * upd) :=\n  %s.\n' % body)
+
+
+# ---------------------------------------------------------------------------------------------
+# predicate_formula.process_renames
+
+PR_OPAQUE = """opaque calls and what they become (Model/PredicateRename.v):
+  get_dollar_replacer(formula)                     the parameter `dollars : option (list Z)` (None: SyntaxError)
+  dollar_replacer.get_text()                       undollar_text formula dollars
+  ast.parse(formula_nodollar, mode='eval') inside asttokens.ASTTokens(...)
+                                                   the parameter `parsed : option expr` (None: SyntaxError)
+  collector.visit(atok.tree)                       gen_visit (Some k) tree []  (GristGen.Predicate_gen)
+  collector.entities                               the entities that visit appended
+  dollar_replacer.map_back_patch(textbuilder.make_patch(text, a, b, new))   map_back_patch dollars a b new
+  textbuilder.Replacer(textbuilder.Text(formula), patches).get_text()       apply_patches formula patches"""
+
+
+class ProcessRenames(object):
+  """Statements in an exception monad: SyntaxError inside `try ... except SyntaxError:` runs the handler, outside it
+  escapes (PRSyntaxError); an internal error of the collector escapes as PRInternal."""
+
+  def __init__(self):
+    self.env = {'formula': ('formula', 'str'), 'renamer': ('renamer', 'renamer'), 'collector': ('', 'collector')}
+
+  def expr(self, e):
+    if isinstance(e, ast.Name) and e.id in self.env:
+      return T(*self.env[e.id])
+    if isinstance(e, ast.Attribute) and isinstance(e.value, ast.Name) and self.env.get(e.value.id, (0, 0))[1] == 'subject':
+      f = {'start_pos': ('g_pos', 'int'), 'name': ('g_name', 'str')}.get(e.attr)
+      if f:
+        return T('(%s %s)' % (f[0], self.env[e.value.id][0]), f[1])
+    if isinstance(e, ast.BinOp) and isinstance(e.op, ast.Add):
+      a, b = self.expr(e.left), self.expr(e.right)
+      if a.ty == b.ty == 'int':
+        return T('(%s + %s)' % (a.term, b.term), 'int')
+    if isinstance(e, ast.Call) and ast.unparse(e.func) == 'len' and len(e.args) == 1:
+      x = self.expr(e.args[0])
+      if x.ty == 'str':
+        return T('(Z.of_nat (List.length %s))' % x.term, 'int')
+    if isinstance(e, ast.Call) and ast.unparse(e.func) == 'renamer' and len(e.args) == 1 and not e.keywords:
+      x = self.expr(e.args[0])
+      if x.ty == 'subject':
+        return T('(renamer %s)' % x.term, 'ostr')
+    if isinstance(e, ast.Call) and ast.unparse(e.func) == 'dollar_replacer.get_text' and not e.args and \
+       self.env.get('dollar_replacer', (0, 0))[1] == 'dollars':
+      return T('(undollar_text formula dollar_replacer)', 'str')
+    fail(e, 'expression')
+
+  def block(self, ss, k, handler):
+    """handler: term to run when a SyntaxError is raised here (None: it escapes)."""
+    raise_ = handler if handler is not None else 'PRSyntaxError'
+    if not ss:
+      return k()
+    s, rest = ss[0], ss[1:]
+    nxt = lambda: self.block(rest, k, handler)
+    src = ast.unparse(s)
+    if isinstance(s, ast.Expr) and isinstance(s.value, ast.Constant):
+      return nxt()
+    if src == 'patches = []':
+      self.env['patches'] = ('patches', 'lpatch')
+      return '(let patches := [] in %s)' % nxt()
+    if src == 'dollar_replacer = get_dollar_replacer(formula)':
+      self.env['dollar_replacer'] = ('dollar_replacer', 'dollars')
+      return '(match dollars with Some dollar_replacer => %s | None => %s end)' % (nxt(), raise_)
+    if isinstance(s, ast.Assign) and len(s.targets) == 1 and isinstance(s.targets[0], ast.Name) and \
+       isinstance(s.value, ast.Call) and ast.unparse(s.value.func) == 'dollar_replacer.get_text':
+      x = self.expr(s.value)
+      self.env[s.targets[0].id] = (s.targets[0].id, 'nodollar')
+      return '(let %s := %s in %s)' % (s.targets[0].id, x.term, nxt())
+    if isinstance(s, ast.Assign) and len(s.targets) == 1 and isinstance(s.targets[0], ast.Name) and \
+       isinstance(s.value, ast.Call) and ast.unparse(s.value.func) == 'asttokens.ASTTokens':
+      c = s.value
+      if len(c.args) != 1 or self.env.get(ast.unparse(c.args[0]), (0, 0))[1] != 'nodollar' or len(c.keywords) != 1 or \
+         c.keywords[0].arg != 'tree' or ast.unparse(c.keywords[0].value) != "ast.parse(%s, mode='eval')" % ast.unparse(c.args[0]):
+        fail(s, 'ASTTokens call')
+      self.env[s.targets[0].id] = ('tree', 'atok')
+      return '(match parsed with Some tree => %s | None => %s end)' % (nxt(), raise_)
+    if isinstance(s, ast.Expr) and isinstance(s.value, ast.Call) and ast.unparse(s.value.func) == 'collector.visit' and \
+       len(s.value.args) == 1 and isinstance(s.value.args[0], ast.Attribute) and s.value.args[0].attr == 'tree' and \
+       self.env.get(ast.unparse(s.value.args[0].value), (0, 0))[1] == 'atok':
+      self.env['collector.entities'] = ('entities', 'lsubject')
+      return ('(match gen_visit (Some k) tree [] with GOk (_, entities) => %s | GFail (GErr _) => %s '
+              '| GFail (GInternal w) => PRInternal w end)' % (nxt(), raise_))
+    if isinstance(s, ast.Try):
+      h = s.handlers
+      if len(h) != 1 or s.orelse or s.finalbody or ast.unparse(h[0].type) != 'SyntaxError' or h[0].name:
+        fail(s, 'try shape')
+      saved = dict(self.env)
+      hterm = self.block(h[0].body, lambda: fail(s, 'the handler must return'), handler)
+      self.env = saved
+      return self.block(s.body, nxt, hterm)
+    if isinstance(s, ast.Return):
+      if src == 'return textbuilder.Replacer(textbuilder.Text(formula), patches).get_text()' and 'patches' in self.env:
+        return '(PRText (apply_patches formula patches))'
+      x = self.expr(s.value)
+      if x.ty == 'str':
+        return '(PRText %s)' % x.term
+      fail(s, 'return')
+    if isinstance(s, ast.For):
+      if ast.unparse(s.iter) != 'collector.entities' or 'collector.entities' not in self.env or s.orelse or \
+         not isinstance(s.target, ast.Name):
+        fail(s, 'loop')
+      saved = dict(self.env)
+      self.env[s.target.id] = (s.target.id, 'subject')
+      body = self.block(s.body, lambda: 'patches', None)
+      self.env = saved
+      return '(let patches := fold_left (fun patches %s => %s) entities patches in %s)' % (s.target.id, body, nxt())
+    if isinstance(s, ast.Assign) and len(s.targets) == 1 and isinstance(s.targets[0], ast.Name):
+      x = self.expr(s.value)
+      self.env[s.targets[0].id] = (s.targets[0].id, x.ty)
+      return '(let %s := %s in %s)' % (s.targets[0].id, x.term, nxt())
+    if isinstance(s, ast.If) and not s.orelse and isinstance(s.test, ast.Compare) and len(s.test.ops) == 1 and \
+       isinstance(s.test.ops[0], ast.IsNot) and ast.unparse(s.test.comparators[0]) == 'None' and \
+       isinstance(s.test.left, ast.Name) and self.env.get(s.test.left.id, (0, 0))[1] == 'ostr':
+      name = s.test.left.id
+      saved = dict(self.env)
+      self.env[name] = (name + "'", 'str')
+      then = self.block(s.body, nxt, handler)
+      self.env = saved
+      return "(match %s with Some %s' => %s | None => %s end)" % (name, name, then, nxt())
+    if isinstance(s, ast.Assign) and len(s.targets) == 1 and isinstance(s.targets[0], ast.Tuple) and \
+       [ast.unparse(t) for t in s.targets[0].elts[:2]] == ['_', '_'] and len(s.targets[0].elts) == 3 and \
+       isinstance(s.value, ast.Call) and ast.unparse(s.value.func) == 'dollar_replacer.map_back_patch' and \
+       len(s.value.args) == 1 and isinstance(s.value.args[0], ast.Call) and \
+       ast.unparse(s.value.args[0].func) == 'textbuilder.make_patch' and len(s.value.args[0].args) == 4:
+      mp = s.value.args[0].args
+      text, a, b, new = [self.expr(x) for x in mp]
+      if ast.unparse(mp[0]) != 'dollar_replacer.get_text()' or (a.ty, b.ty, new.ty) != ('int', 'int', 'str'):
+        fail(s, 'make_patch arguments')
+      name = ast.unparse(s.targets[0].elts[2])
+      self.env[name] = (name, 'patch')
+      return '(let %s := map_back_patch dollar_replacer %s %s %s in %s)' % (name, a.term, b.term, new.term, nxt())
+    if isinstance(s, ast.Expr) and isinstance(s.value, ast.Call) and ast.unparse(s.value.func) == 'patches.append' and \
+       len(s.value.args) == 1 and self.env.get(ast.unparse(s.value.args[0]), (0, 0))[1] == 'patch':
+      return '(let patches := patches ++ [%s] in %s)' % (ast.unparse(s.value.args[0]), nxt())
+    fail(s, 'statement')
+
+
+def translate_process_renames(path):
+  with open(path) as f:
+    mod = ast.parse(f.read())
+  fns = [s for s in mod.body if isinstance(s, ast.FunctionDef) and s.name == 'process_renames']
+  if len(fns) != 1 or [a.arg for a in fns[0].args.args] != ['formula', 'collector', 'renamer'] or fns[0].args.defaults:
+    raise Untranslatable('process_renames(formula, collector, renamer) not found')
+  t = ProcessRenames()
+  body = t.block(fns[0].body, lambda: fail(fns[0], 'process_renames falls off its end'), None)
+  return ('Definition gen_process_renames (k : collector) (renamer : gent -> option str) (formula : str)\n'
+          '  (dollars : option (list Z)) (parsed : option expr) : pr_result :=\n  %s.\n' % body)
